@@ -9,6 +9,8 @@ property is about nodes obtained through the same capability string.
 
 Output: list of traces {"consts": {...}, "events": [...]}.
 """
+import os as _os
+_os.environ.setdefault("VERIF_ASYNC_CPU", "1")   # CPU-bound steps finish one reactor turn later, as in production
 from vreactor import vr, settle
 import argparse, json, os, random, shutil, sys, tempfile
 
